@@ -163,10 +163,8 @@ SIBLINGS = [
     ('mod-double', [(FPI2 + 'fp_double', {}), (FPI9 + 'fp_double', {})]),
     ('mod-mul', [(FPI2 + 'fp_mul', {}), (FPI9 + 'fp_mul', {})]),
     ('mod-inv', [(FPI2 + 'fp_inv', {}), (FPI9 + 'fp_inv', {})]),
-    ('mod-pow', [('gm_sm2::fields::fp64::fp_pow', {}), ('gm_sm9::fields::fp::fp_pow', {})]),
     ('to-mont', [('gm_sm2::fields::fp64::fp_to_mont', {}), ('gm_sm9::fields::fp::fp_to_mont', {}), ('gm_sm2::fields::fn64::fn_to_mont', N2P)]),
     ('from-mont', [('gm_sm2::fields::fp64::fp_from_mont', {}), ('gm_sm9::fields::fp::fp_from_mont', {}), ('gm_sm2::fields::fn64::fn_from_mont', {})]),
-    ('kdf', [('gm_sm2::util::kdf', {}), ('gm_sm9::key::kdf', {})]),
 ]
 
 
@@ -181,12 +179,23 @@ def s_siblings(cx, rule, only=None):
         if only and label not in only:
             continue
         shapes = []
+        # loop-free members are compared by their path summaries (what is returned under which decisions), which do not
+        # depend on temporaries or statement order; groups with a member that loops keep the structural fingerprint
+        from .rules_poly import path_summary
+        sums = {}
+        for name, sub in members:
+            fn = cx.F.fns.get(name)
+            sums[name] = path_summary(cx.F, fn) if fn is not None else None
+        use_sum = all(v is not None for v in sums.values())
         for name, sub in members:
             fn = cx.F.fns.get(name)
             if fn is None:
                 cx.lost(rule, '%s/%s' % (label, name), 'sibling implementation not found')
                 continue
-            s = fn_shape(fn, cx.F)
+            if use_sum:
+                s = re.sub(r'\bSM[29]_', 'SMx_', '\n'.join(sums[name]))
+            else:
+                s = fn_shape(fn, cx.F)
             for a, b in sorted(sub.items(), key=lambda kv: -len(kv[0])):
                 s = s.replace(a, b)
             s = re.sub(r'\b_\d+@in', 'tmp@in', s)
